@@ -80,6 +80,7 @@ def conditions(trace, mounts, resolver):
         out.append(({'kind': 'cond', 'what': 'dir_not_writable', 'dir': d}, ('cond', 'dir_not_writable', d)))
         out.append(({'kind': 'cond', 'what': 'eio_under', 'dir': d}, ('cond', 'eio_under', d)))
         out.append(({'kind': 'cond', 'what': 'dir_not_searchable', 'dir': d}, ('cond', 'dir_not_searchable', d)))
+        out.append(({'kind': 'cond', 'what': 'dir_not_readable', 'dir': d}, ('cond', 'dir_not_readable', d)))
     for x in sorted(entries):
         out.append(({'kind': 'cond', 'what': 'immutable', 'entry': x}, ('cond', 'immutable', x)))
     return out
